@@ -22,7 +22,7 @@ CFGS = {
 }
 DEPTH = {'quick': (3, 8), 'thorough': (4, 11)}
 PARTS = {'quick': 4, 'thorough': 3}
-WALKS = {'quick': (60, 120), 'thorough': (600, 300)}
+WALKS = {'quick': (240, 120), 'thorough': (600, 300)}
 BUDGET = {'quick': 45, 'thorough': 600}
 
 # prefix-seeded exploration (states a search from boot reaches only at depth 8+): a session under a pending boot
